@@ -145,7 +145,14 @@ Proof.
     | upd_cases; auto;
       match goal with H : In ?k (fwdlog _) |- _ => destruct (R2 k H) as [E|E]; try congruence end;
       first [ rewrite B2 in E by assumption; discriminate | rewrite B3 in E by (destruct (tok s); [discriminate|reflexivity]); discriminate ] ].
-  all: idtac "left".
-  all: match goal with |- ?G => idtac G end.
-  Show.
-Admitted.
+  - upd_cases; [exfalso|auto].
+    match goal with H : In ?k (fwdlog _), L : loc _ ?k = LCh ?s0, K : stage_ok _ ?s0 = true |- _ =>
+      destruct (R2 k H) as [E|E]; rewrite L in E; [injection E as ->; unfold stage_ok in K; cbn in K; discriminate K|discriminate E] end.
+  - upd_cases; [exfalso|auto].
+    match goal with H : In ?k (fwdlog _), L : loc _ ?k = LCh _ |- _ =>
+      destruct (R2 k H) as [E|E]; rewrite L in E; [unfold ain in E; destruct (von c); discriminate E|discriminate E] end.
+  - left. apply upd_same.
+Qed.
+
+Lemma reach_InvR c s : reach c s -> InvR s.
+Proof. induction 1; [apply InvR_init|eapply InvR_step; eauto using reach_InvB]. Qed.
